@@ -131,11 +131,13 @@ type c20Env struct {
 	uploadDelay  time.Duration
 	requestDelay time.Duration
 	uploadsIn    int
+	rpcIn        int
 	uploadsDone  int
 	uploadStatus []int
 	uploadAt     map[string]time.Time
 	rpcAt        map[string]time.Time
 	alignOn      bool
+	skewUs       int
 	barrier      map[string]chan struct{}
 
 	wsClient   c20Client
@@ -206,6 +208,7 @@ func newC20Env() (*c20Env, error) {
 			if id := uuidRe.FindString(string(body)); id != "" {
 				e.evMu.Lock()
 				e.rpcAt[id] = time.Now()
+				e.rpcIn++
 				e.evMu.Unlock()
 			}
 			r.Body = io.NopCloser(strings.NewReader(string(body)))
@@ -225,6 +228,15 @@ func newC20Env() (*c20Env, error) {
 		e.uploadAt[path.Base(r.URL.Path)] = time.Now()
 		e.evMu.Unlock()
 		e.align(path.Base(r.URL.Path))
+		e.evMu.Lock()
+		skew := time.Duration(e.skewUs) * time.Microsecond
+		on := e.alignOn
+		e.evMu.Unlock()
+		if on && skew > 0 {
+			// the RPC side still has to parse the request before it reaches the rendezvous table: scan that offset
+			for t0 := time.Now(); time.Since(t0) < skew; {
+			}
+		}
 		sr := &statusRecorder{ResponseWriter: w, code: 200}
 		readerHandler(sr, r)
 		e.evMu.Lock()
@@ -267,6 +279,7 @@ type c20Case struct {
 	Transport string    `json:"transport"` // ws | http
 	Order     string    `json:"order"`     // natural | request_first | upload_first | aligned (both released at the same instant; http only)
 	Calls     []c20Call `json:"calls"`
+	SkewUs    int       `json:"skew_us,omitempty"` // aligned order: the upload side proceeds this many microseconds after the release
 }
 
 func c20Payload(tok string, n int, seed uint64) []byte {
@@ -288,13 +301,14 @@ func (e *c20Env) run(c c20Case) *Violation {
 	e.evMu.Lock()
 	e.uploadDelay, e.requestDelay = 0, 0
 	e.alignOn = c.Order == "aligned"
+	e.skewUs = c.SkewUs
 	switch c.Order {
 	case "request_first":
 		e.uploadDelay = 25 * time.Millisecond
 	case "upload_first":
 		e.requestDelay = 25 * time.Millisecond
 	}
-	e.uploadsIn, e.uploadsDone, e.uploadStatus = 0, 0, nil
+	e.uploadsIn, e.rpcIn, e.uploadsDone, e.uploadStatus = 0, 0, 0, nil
 	e.evMu.Unlock()
 
 	cl := e.wsClient
@@ -328,6 +342,13 @@ func (e *c20Env) run(c c20Case) *Violation {
 			key := "call-failed"
 			if strings.Contains(o.err.Error(), "close of closed channel") {
 				key = "read-past-eof-panic"
+			}
+			e.evMu.Lock()
+			in, rin, done := e.uploadsIn, e.rpcIn, e.uploadsDone
+			e.evMu.Unlock()
+			if c.Transport == "http" && in >= len(c.Calls) && rin >= len(c.Calls) && done < in {
+				// both the upload and the request reached the server (seconds ago), yet they never met: no bound involved
+				key = "rendezvous-missed"
 			}
 			return violf(key, "call %d (len %d, plan %+v) failed: %v", i, call.Len, call.Plan, o.err)
 		}
@@ -501,8 +522,8 @@ func TestC20(t *testing.T) {
 			}
 		}
 		// aligned arrivals: upload and request of the same stream id hit the rendezvous table at the same instant
-		for i := 0; i < scale(300, 3000); i++ {
-			c := c20Case{Transport: "http", Order: "aligned", Calls: []c20Call{{Len: 1 + i%40, Seed: uint64(i)*31 + 7, Plan: ReadPlan{Pattern: "readall"}}}}
+		for i := 0; i < scale(900, 5000); i++ {
+			c := c20Case{Transport: "http", Order: "aligned", SkewUs: (i * 3) % 150, Calls: []c20Call{{Len: 1 + i%40, Seed: uint64(i)*31 + 7, Plan: ReadPlan{Pattern: "readall"}}}}
 			if i%10 == 0 {
 				c.Calls = append(c.Calls, c20Call{Len: 3, Seed: uint64(i), Plan: ReadPlan{Pattern: "readall"}}, c20Call{Len: 5000, Seed: uint64(i) + 1, Plan: ReadPlan{Pattern: "readall"}})
 			}
@@ -525,6 +546,9 @@ func TestC20(t *testing.T) {
 			orders = append(orders, "upload_first", "aligned", "aligned")
 		}
 		c.Order = rapid.SampledFrom(orders).Draw(rt, "order")
+		if c.Order == "aligned" {
+			c.SkewUs = rapid.IntRange(0, 150).Draw(rt, "skew")
+		}
 		n := rapid.SampledFrom([]int{1, 1, 1, 2, 3, 3, 6}).Draw(rt, "ncalls")
 		for i := 0; i < n; i++ {
 			call := genC20Call(rt, i, maxLen)
